@@ -216,6 +216,9 @@ func (in *Interp) callFn(caller *frame, fn *ssa.Function, args []Val) Val {
 		return nil
 	}
 	if m := in.W.lookupModel(fn); m != nil {
+		if in.preemptBudget > 0 && strings.Contains(fn.String(), "sync/atomic") {
+			in.preemptPoint()
+		}
 		in.modelsUsed[fn.String()]++
 		return m(in, caller, fn, args)
 	}
